@@ -67,6 +67,12 @@ CHECKS["C12"] = dict(
     note=_XH_NOTE,
     ref="DESIGN.md section 6 C12")
 
+CHECKS["C18"] = dict(
+    technique="bounded symbolic execution of isvalidaa / isvalidcdr3 on free strings and representative non-string objects, and of standardize_dataframe / multimerge with tidytcells and pandas.merge as uninterpreted term constructors (CrossHair + z3)",
+    text="Predicates: for every string of length <= 2 (3 thorough) the result equals the regular definition, and for None/NaN/numbers/bytes/containers/dicts a bool is returned without raising. standardize_dataframe: the input table is untouched (cell identity), rows/index/extra columns preserved, each standard cell is None if missing else exactly the documented tidytcells call with exactly the documented options (options symbolic or non-default so mis-wiring is visible), standardize=False and col_mapper and df/df_old handled. multimerge: the result is the left fold of pandas.merge with the documented keying, suffixing and how='outer' default.",
+    note=_XH_NOTE + " tidytcells' answers and pandas' join algorithm are uninterpreted.",
+    ref="DESIGN.md section 6 C18")
+
 NOT_APPLICABLE = {}
 
 def main():
